@@ -149,6 +149,7 @@ ILL_STMTS = [
 ]
 
 ILL_EXPRS = [
+    "super().__nope", "range('a')", "(10 ** 5000).nope", "max(10 ** 5000, 'a')", "Meta", "[Meta, int][0]", "type(Meta)", "Meta('X', (), {})",
     "([] @ {})",
     "len()",
     "later_fn(1, 2, 3, 4, 5, 6, 7)",
@@ -1396,7 +1397,7 @@ def gen_program(rng: random.Random, budget=None):
             with warnings.catch_warnings():
                 warnings.simplefilter("ignore")  # SyntaxWarning for `1()` etc. is the point of the ill-typed forms
                 compile(src, "<fuzz>", "exec", dont_inherit=True)
-        except (SyntaxError, ValueError, OverflowError, MemoryError, RecursionError):
+        except (SyntaxError, ValueError, OverflowError, MemoryError, RecursionError, SystemError):  # SystemError: CPython 3.12 symtable bug with __class__
             rejected += 1
             continue
         return src, sorted(fz.feats), rejected
@@ -1542,6 +1543,25 @@ def sweep_programs(mine=None) -> list:
         return [f"def tf[{tp}](x: {first}) -> {first}: return x", f"async def atf[{tp}](*args: {first}): pass", f"class TC[{tp}]:\n    def m(self, x: {first}) -> {first}: return x",
                 f"type TA[{tp}] = list[{first}]", f"def outer():\n    def inner[{tp}](x: {first}): pass\n    class Inner[{tp}]: pass\n    type InnerA[{tp}] = {first}\n    return inner, Inner, InnerA",
                 f"class TM:\n    def meth[{tp}](self, x: {first}) -> {first}: return x", "def use():\n    return tf(1), TC(), TA, TM().meth(1)"]
+
+    # (7) odd signatures (star-annotations, ParamSpec components, Unpack[TypedDict]) defined and called
+    sigs = ["p, *args: *tuple[int, str], **kwargs", "*args: *tuple[int, str]", "p, /, *args: *tuple[int, ...]", "*args: *Ts", "p=0, *args: *Ts", "*args: Unpack[Ts]",
+            "**kwargs: Unpack[LaterTD]", "p, **kwargs: Unpack[LaterTD]", "k, **kwargs: Unpack[LaterTD]", "*args: P.args, **kwargs: P.kwargs",
+            "x, *args: P.args, **kwargs: P.kwargs", "*args: P.args", "**kwargs: P.kwargs", "*, x, **kwargs: P.kwargs", "*args: P.kwargs, **kwargs: P.args",
+            "*args: *tuple[*Ts, int]", "*args: *tuple[()]", "*args: *tuple[int, *tuple[str, ...]]", "x: int = 0, /, y: str = '', *args: bytes, z: float = 0.0, **kw: None",
+            "self, /", "*args: 'int'", "*args: '*Ts'", "**kwargs: 'Unpack[LaterTD]'", "x: T, *args: T, **kwargs: T", "*args: Unpack[tuple[int, str]]",
+            "x: Callable[[*Ts], None], *args: *Ts", "f: Callable[P, T], *args: P.args, **kwargs: P.kwargs", "f: Callable[Concatenate[int, P], T], *args: P.args, **kwargs: P.kwargs"]
+
+    def sig_defs(chunk):
+        defs = []
+        for j, sg in enumerate(chunk):
+            defs += [f"def sg{j}({sg}): pass", f"def call_sg{j}():\n    sg{j}()\n    sg{j}(1)\n    sg{j}(1, 'a')\n    sg{j}(1, 'a', b'x', k=1)\n    sg{j}(*g2, **g1)\n    return sg{j}",
+                     f"async def asg{j}({sg}): return args if 'args' in dir() else None", f"class SG{j}:\n    def m(self, {sg}): pass\n    def use(self):\n        self.m(1, 'a'); SG{j}.m(self, 1)",
+                     f"def lam_sg{j}():\n    return (lambda {sg.split(':')[0] if ':' not in sg.split(',')[0] else 'x'}: 0)"]
+        return defs
+
+    for i in range(0, len(sigs), 7):
+        emit("odd-signatures", True, lambda chunk=sigs[i: i + 7]: sig_defs(chunk))
 
     for tp in TYPE_PARAMS + ["T = int", "T: int = bool", "*Ts = *tuple[int, str]", "**P = [int, str]", "T: (int, undef1)", "T: 'undef1'", "T: 1", "T: (int,)", "T: ()",
                              "T: Later", "T: list[Later]", "T: T", "T: U, U: T", "T, T2: T", "T: Callable[[T], T]", "T: int | None", "T: Literal[1]"]:
